@@ -511,7 +511,122 @@ type c09Consumer struct {
 	cancel   context.CancelFunc
 }
 
+// c09BlockingRetention: a consumer blocked in Next while every commit both
+// appends an event and discards an old one (the change log keeps its length).
+func c09BlockingRetention(c *fw.Ctx) {
+	caseNo := 0
+	for L := 3; L <= 8; L++ {
+		for minSize := 1; minSize <= 2; minSize++ {
+			for _, maxSize := range []int{L, L - 1} {
+				caseNo++
+				if caseNo%c.NBatches != c.Batch {
+					continue
+				}
+				idx := 9700000 + caseNo
+				if c.Skip(idx) {
+					continue
+				}
+				desc := map[string]interface{}{"old_events": L, "minSize": minSize, "maxSize": maxSize}
+				c.Case(idx, func() interface{} { return desc }, nil, func() {
+					c.Eval(1)
+					ages := make([]time.Duration, L)
+					for i := range ages {
+						ages[i] = ageOld
+					}
+					store := &preloadedStore{cat: craftedOplog(ages)}
+					client, engine, err := lungo.Open(nil, lungo.Options{Store: store, ExpireInterval: 1 << 40, MinOplogSize: minSize, MaxOplogSize: maxSize, MinOplogAge: 5 * time.Minute, MaxOplogAge: time.Hour})
+					if err != nil {
+						c.Inconclusive("open: " + err.Error())
+						return
+					}
+					defer engine.Close()
+					ctl := sched.New(nil)
+					var parked atomic.Bool
+					ctl.OnEvent = func(actor int, point string, obj interface{}) {
+						if actor == 100 {
+							switch point {
+							case "stream.before_wait":
+								parked.Store(true)
+							case "stream.woken":
+								parked.Store(false)
+							}
+						}
+					}
+					ctl.Install()
+					defer sched.Remove()
+					ctx, cancel := context.WithCancel(context.Background())
+					defer cancel()
+					s, err := client.Watch(ctx, bson.A{})
+					if err != nil {
+						c.Inconclusive("watch: " + err.Error())
+						return
+					}
+					var delivered atomic.Int64
+					done := make(chan struct{})
+					go func() {
+						defer close(done)
+						ctl.Register(100, 5)
+						for s.Next(ctx) {
+							parked.Store(false)
+							delivered.Add(1)
+						}
+					}()
+					writes := L + 2
+					for k := 0; k < writes; k++ {
+						// the consumer parks before the next commit
+						for i := 0; i < 3000 && !parked.Load(); i++ {
+							time.Sleep(time.Millisecond)
+						}
+						before := len(oplogEvents(engine.Catalog()))
+						op := drv.Op{Kind: drv.InsertOne, DB: "d", Coll: "c", Docs: []bson.D{{{Key: "_id", Value: int32(1000 + k)}}}}
+						if res := drv.Exec(context.Background(), client, &op); res.Err != "" {
+							c.Violate("retention-stream:write", "insert failed: "+res.Err, desc)
+							return
+						}
+						if len(oplogEvents(engine.Catalog())) <= before {
+							c.Count("commits_keeping_log_length", 1)
+						}
+						deadline := time.Now().Add(10 * time.Second)
+						for delivered.Load() < int64(k+1) {
+							if parked.Load() {
+								pending := s.(*lungo.Stream).VerifSignalPending()
+								time.Sleep(20 * time.Millisecond)
+								if pending == 0 && parked.Load() && delivered.Load() < int64(k+1) {
+									if err := s.Err(); err != nil {
+										break // reported below
+									}
+									c.Violate("stream:lost-wake-up", fmt.Sprintf("a consumer blocked in Next was not woken by commit %d (the commit appended an event while retention discarded one): parked, no signal pending, %d of %d events delivered", k, delivered.Load(), k+1),
+										map[string]interface{}{"setup": desc, "hook_trace": ctl.TraceStrings(40)})
+									return
+								}
+							}
+							if time.Now().After(deadline) {
+								c.Inconclusive("blocking-retention watchdog fired without the parked pattern")
+								return
+							}
+							time.Sleep(time.Millisecond)
+						}
+						if err := s.Err(); err != nil {
+							c.Violate("retention-stream:spurious-error", fmt.Sprintf("a consumer that delivered every event so far failed with %v", err), desc)
+							return
+						}
+						c.Count("concurrent_events_delivered", 1)
+					}
+					s.Close(context.Background())
+					select {
+					case <-done:
+						c.Count("parked_consumers_released", 1)
+					case <-time.After(10 * time.Second):
+						c.Violate("stream:not-released", "a consumer blocked in Next was not released by Close", desc)
+					}
+				})
+			}
+		}
+	}
+}
+
 func c09Concurrent(c *fw.Ctx) {
+	c09BlockingRetention(c)
 	runs := c.N(4, 40)
 	for k := 0; k < runs; k++ {
 		idx := 9500000 + c.Batch*1000 + k
